@@ -14,7 +14,7 @@ from hypothesis import strategies as st
 
 from .world import enc
 
-ENT_CLASSES = ["Ent", "Ent", "Ent", "EntSub", "EntPlain"]
+ENT_CLASSES = ["Ent", "Ent", "Ent", "EntSub", "EntPlain", "EntV", "EntV"]
 
 PROFILES = {
     "clean": dict(ints=[1, 2, 3], strs=["x", "xy", "y"], tag_len=(1, 3), kids_len=(1, 3),
@@ -50,6 +50,7 @@ class Cfg:
     avoid: frozenset = frozenset()          # features excluded by construction (open known findings)
     exclude_leaves: frozenset = frozenset()  # leaf kinds not to generate (e.g. C19's twin cannot preserve substring tests)
     use_k: bool = True                       # whether the unique key k may be used as an int term
+    clones: Tuple[int, int] = (1, 8)         # probability (num, den) of making some records value-equal EntV clones
 
 
 def chance(draw, num: int, den: int) -> bool:
@@ -79,6 +80,14 @@ def draw_dataset(draw, cfg: Cfg, n: Optional[int] = None):
             "kids": [draw(st.integers(0, n - 1)) for _ in range(kl)],
             "d": {"p": draw(st.sampled_from(P["ints"])), "q": draw(st.sampled_from(P["ints"]))},
         })
+    # value-equal but distinct objects: clones of one record as EntV (which compares by value)
+    if n >= 2 and chance(draw, cfg.clones[0], cfg.clones[1]):
+        base = recs[draw(st.integers(0, n - 1))]
+        base["cls"] = "EntV"
+        for _ in range(draw(st.integers(1, 2))):
+            r = recs[draw(st.integers(0, n - 1))]
+            if r is not base:
+                r.update(cls="EntV", a=base["a"], b=base["b"], s=base["s"], tags=list(base["tags"]))
     return recs
 
 
@@ -88,7 +97,7 @@ class Ctx:
     def __init__(self, cfg: Cfg, recs: List[dict], nvars: int):
         self.cfg = cfg
         self.P = PROFILES[cfg.profile]
-        ents = [r for r in recs if r.get("cls", "Ent") in ("Ent", "EntSub", "EntPlain")]
+        ents = [r for r in recs if r.get("cls", "Ent") in ("Ent", "EntSub", "EntPlain", "EntV")]
         self.min_tags = min((len(r["tags"]) for r in ents), default=0)
         self.min_kids = min((len(r["kids"]) for r in ents), default=0)
         self.nvars = nvars
@@ -165,7 +174,7 @@ def leaf(draw, ctx: Ctx, vars_: List[int]):
     if cfg.allow_any:
         kinds += ["anyc", "anyin"]
     if cfg.allow_truth:
-        kinds += ["big", "atleast", "starts"]
+        kinds += ["big", "atleast", "starts", "tval", "tval"]
     if cfg.allow_preds:
         kinds += ["fpred1", "cpred1", "hastype"]
     kinds = [x for x in kinds if x not in cfg.exclude_leaves]
@@ -209,6 +218,15 @@ def leaf(draw, ctx: Ctx, vars_: List[int]):
     if k == "starts":
         return ["truth", ["call", ["attr", ent_term(draw, ctx, x), "s"], "startswith",
                           [draw(st.sampled_from(["x", "y", "xy"]))]]]
+    if k == "tval":
+        # a value-typed expression standing in condition position: interpreted as a boolean (bool(value))
+        e = ent_term(draw, ctx, x)
+        what = draw(st.sampled_from(["int", "s", "tags", "o", "kids", "val"]))
+        if what == "int":
+            return ["truth", int_term(draw, ctx, x)]
+        if what == "val":
+            return ["truth", ["call", e, "val", []]]
+        return ["truth", ["attr", e, what]]
     if k == "fpred1":
         return ["fpred", "p_a_ge", [["var", x], ["const", draw(st.sampled_from(P["ints"]))]]]
     if k == "cpred1":
@@ -253,7 +271,9 @@ def template_cond(draw, ctx: Ctx):
     n = ctx.nvars
     T = ["free", "free", "free"]
     if n >= 2:
-        T += ["and_right_diffvar_or", "and_two_ors", "or_overlap", "subset_only"]
+        T += ["and_right_diffvar_or", "and_two_ors", "or_overlap", "subset_only", "and_independent"]
+    if n >= 3:
+        T += ["indep_and_or3", "indep_and_or3"]
     T += ["same_var_or", "not_over_and", "not_over_or", "and_of_ors_samevar"] if cfg.allow_not else \
         ["same_var_or", "and_of_ors_samevar"]
     t = draw(st.sampled_from(T))
@@ -267,6 +287,17 @@ def template_cond(draw, ctx: Ctx):
         o1 = leaf(draw, ctx, [y])
         o2 = leaf(draw, ctx, [x, y]) if draw(st.booleans()) else leaf(draw, ctx, [x])
         return ["and", f(), [a, ["or", f(), [o1, o2]]]]
+    if t == "and_independent":
+        x, y = (draw(st.permutations(list(range(n)))))[:2]
+        return ["and", f(), [leaf(draw, ctx, [x]), leaf(draw, ctx, [y])]]
+    if t == "indep_and_or3":
+        # L over one variable, R a disjunction over two OTHER variables: L passes several bindings through to R
+        z, x, y = (draw(st.permutations(list(range(n)))))[:3]
+        o1 = leaf(draw, ctx, [x])
+        o2 = leaf(draw, ctx, draw(st.sampled_from([[y], [y], [x, y]])))
+        parts = [leaf(draw, ctx, [z]), ["or", f(), [o1, o2]]]
+        conn = draw(st.sampled_from(["and", "and", "or"]))
+        return [conn, f(), parts]
     if t == "and_two_ors":
         def an_or():
             x, y = (draw(st.permutations(list(range(n)))))[:2]
